@@ -17,6 +17,7 @@ Sound for all expressions; complete for polynomial / rational identities.
 from __future__ import annotations
 
 import math
+import threading
 from fractions import Fraction
 
 import numpy as np
@@ -48,12 +49,27 @@ def reset():
     oracle.reset()
 
 
+LOCK = threading.RLock()  # felupe runs weak forms in threads (parallel=True): atom tables are shared state
+
+
+def _locked(f):
+    import functools
+
+    @functools.wraps(f)
+    def g(*a, **k):
+        with LOCK:
+            return f(*a, **k)
+
+    return g
+
+
 def newgen(name, d=None):
-    GENS.append(name)
-    i = len(GENS) - 1
-    if d is not None:
-        DEFS[i] = d
-    return i
+    with LOCK:
+        GENS.append(name)
+        i = len(GENS) - 1
+        if d is not None:
+            DEFS[i] = d
+        return i
 
 
 def mmul(a, b):
@@ -265,8 +281,18 @@ class LP:
         return " + ".join(out) + (f" ... ({len(items)} terms)" if len(items) > 8 else "")
 
     def __bool__(s):
-        """truthiness is the exact zero test (no silent truthy default)"""
-        return not iszero(s)
+        """truthiness of a ring value: False iff it is (identically) zero; a value that is not identically
+        zero is truthy only if `!= 0` is entailed by the contract's requires -- otherwise the branch depends
+        on the input (it is zero for SOME admissible values) and the contract must split the case
+        (oracle.Undecided, exit 2), it is never guessed"""
+        c = s.asconst()
+        if c is not None:
+            return bool(c)
+        if iszero(s):
+            return False
+        from . import oracle
+
+        return oracle.decide(s, "!=", why="truthiness")
 
     def __abs__(s):
         from . import oracle
@@ -363,6 +389,7 @@ def fr(x: float) -> Fraction:
 
 
 # --------------------------------------------------------------------------- atoms
+@_locked
 def var(name):
     if name in _vars:
         return LP.gen(_vars[name])
@@ -386,6 +413,7 @@ def _only_vars(p):
     return True
 
 
+@_locked
 def unit_for(p):
     k = p.key()
     if k in _units:
@@ -419,6 +447,7 @@ def _const_root(c: Fraction, q: int):
     return Fraction(a, b)
 
 
+@_locked
 def nthroot(p: LP, q: int) -> LP:
     """rho with rho**q == p, rho > 0"""
     c = p.asconst()
@@ -443,6 +472,7 @@ def nthroot(p: LP, q: int) -> LP:
     return LP.gen(g)
 
 
+@_locked
 def fn(kind, p: LP) -> LP:
     c = p.asconst()
     if c is not None:
@@ -501,6 +531,7 @@ def pow_atoms_of(base: LP, prim: LP):
     return out
 
 
+@_locked
 def powatom(base: LP, expo: LP) -> LP:
     """base ** expo for a symbolic real exponent (base > 0 is logged as a side condition): an atom
     pw with d pw = pw * (expo * d base / base + log(base) * d expo).
@@ -546,6 +577,7 @@ def powatom(base: LP, expo: LP) -> LP:
     return front * LP.gen(g, 1 if s > 0 else -1)
 
 
+@_locked
 def constatom(name):
     """transcendental constant (pi)"""
     k = ("const", name)
@@ -558,11 +590,13 @@ def PI():
     return constatom("pi")
 
 
+@_locked
 def ghost(name, args, impl=None):
     """fresh generator: uninterpreted smooth function of the LP arguments `args`"""
     return newgen(name, ("ghost", [co(a) for a in args], None, impl))
 
 
+@_locked
 def set_partials(g, partial_gens):
     d = DEFS[g]
     DEFS[g] = ("ghost", d[1], list(partial_gens), d[3])
@@ -693,6 +727,7 @@ def D(s, x) -> LP:
     return LP({m: c for m, c in r.items() if c}) + acc
 
 
+@_locked
 def Dgen(g, x) -> LP:
     k = (g, x)
     if k in _dcache:
